@@ -63,13 +63,60 @@ def shape_get_stmt(n):
             % (n, n, binds, ", ".join(l[:n])))
 
 
+def shape_puts_stmt(n):
+    """shapeN.Put is the fold [puts] (Optics/FocusFacts.v) over its component lenses"""
+    vs = " ".join(l[:n])
+    comps = "; ".join("(shape%d_%s lens, %s)" % (n, l[i], l[i]) for i in range(n))
+    return ("forall (lens : shape%d) (s : ptr) (%s : value) (m : mem),\n  shape%d_Put lens s %s m =\n  rmap (fun m' => (s, m')) (puts [%s] m s)"
+            % (n, vs, n, vs, comps))
+
+
+def shape_nfold_stmt(n):
+    """with pairwise disjoint component foci: Get after Put returns the arguments, nothing outside the foci changes"""
+    vs = " ".join(l[:n])
+    ns = " ".join("n" + l[i] for i in range(n))
+    fs = " ".join("f" + l[i] for i in range(n))
+    foc = " ->\n  ".join("focused (shape%d_%s lens) n%s f%s" % (n, l[i], l[i], l[i]) for i in range(n))
+    lens_ = " -> ".join("List.length %s = n%s" % (l[i], l[i]) for i in range(n))
+    fl = "; ".join("f" + l[i] for i in range(n))
+    return ("forall (lens : shape%d) (s p : ptr) (%s : value) (m m' : mem) (%s : nat) (%s : list (nat * nat)),\n  %s ->\n  %s ->\n"
+            "  ForallOrdPairs disjoint_fp [%s] ->\n  shape%d_Put lens s %s m = Ok (p, m') ->\n"
+            "  p = s /\\ shape%d_Get lens s m' = Ok ((%s), m') /\\\n  (forall i, outside (List.concat [%s]) s i -> nth_error m' i = nth_error m i)"
+            % (n, vs, ns, fs, foc, lens_, fl, n, vs, n, ", ".join(l[:n]), fl))
+
+
+def shape_nfold_proof(n):
+    vs = " ".join(l[:n])
+    ns = " ".join("n" + l[i] for i in range(n))
+    fs = " ".join("f" + l[i] for i in range(n))
+    Fs = " ".join("F" + l[i] for i in range(n))
+    Ls = " ".join("L" + l[i] for i in range(n))
+    args = "; ".join("(shape%d_%s lens, %s)" % (n, l[i], l[i]) for i in range(n))
+    comps = "; ".join("mkComp (shape%d_%s lens) n%s f%s %s" % (n, l[i], l[i], l[i], l[i]) for i in range(n))
+    return ("Proof.\n  intros lens s p %s m m' %s %s %s %s D H.\n"
+            "  rewrite shape%d_Put_puts in H.\n"
+            "  destruct (puts [%s] m s) as [m1|] eqn:E; cbn [rmap] in H; [|discriminate].\n"
+            "  injection H as Hp Hm. subst p m1.\n"
+            "  assert (Hok : Forall comp_ok [%s])\n"
+            "    by (repeat (apply Forall_cons; [split; cbn [c_o c_n c_fp c_x]; assumption|]); apply Forall_nil).\n"
+            "  match type of Hok with Forall _ ?cs =>\n    destruct (puts_spec cs m s m' Hok (FOP_map c_fp disjoint_fp cs D) E) as (_ & G & Fr) end.\n"
+            "  split; [reflexivity|]. split; [|exact Fr].\n"
+            "  rewrite shape%d_Get_spec.\n"
+            "  repeat (apply Forall_cons_iff in G; destruct G as [G0 G]; cbn [c_o c_x] in G0; rewrite G0; clear G0; cbn [bind]).\n"
+            "  reflexivity.\nQed.\n"
+            % (vs, ns, fs, Fs, Ls, n, args, comps, n))
+
+
 def forshape_stmt(n):
     return ("forall (T %s : ty) (attr : list string),\n  ForShape%d T %s attr =\n  rmap (fun '(%s) => mk_shape%d %s) (ForProduct%d T %s attr)"
             % (" ".join(L[:n]), n, " ".join(L[:n]), ", ".join(l[:n]), n, " ".join(l[:n]), n, " ".join(L[:n])))
 
 
 def write(path, text):
-    with open(os.path.join(ROOT, path), "w") as f:
+    full = os.path.join(ROOT, path)
+    if os.path.exists(full) and open(full).read() == text:
+        return                      # unchanged: keep the timestamp, make has nothing to redo
+    with open(full, "w") as f:
         f.write(text)
 
 
@@ -134,7 +181,7 @@ Ltac derive_crush NewN_spec FMapN_spec :=
     o = ['''(* Per-arity lemmas about the generated ForShapeN / shapeN.Put / shapeN.Get (coq/gen/GenShape.v). Written once by
    tools/scripts/gen_arity_facts.py; the definitions are regenerated from optics/shape.go on every run. *)
 From Coq Require Import List String Bool Arith.
-From Golem Require Import Optics.GenPrelude Optics.GenHseqFacts.
+From Golem Require Import Optics.GenPrelude Optics.GenHseqFacts Optics.CombFacts Optics.FocusFacts.
 From GolemGen Require Import GenHseq GenOptics GenShape.
 Import ListNotations.
 Open Scope res_scope.
@@ -151,6 +198,8 @@ Ltac shape_crush :=
         o.append("Lemma shape%d_Get_spec : %s.\nProof. unfold shape%d_Get. shape_crush. Qed.\n" % (n, shape_get_stmt(n), n))
         o.append("Lemma ForShape%d_spec : %s.\nProof.\n  intros. unfold ForShape%d. destruct (ForProduct%d T %s attr) as [[%s]|]; reflexivity.\nQed.\n"
                  % (n, forshape_stmt(n), n, n, " ".join(L[:n]), "".join(["[" * (n - 2)]) + l[0] + " " + l[1] + "".join("] " + l[i] for i in range(2, n))))
+        o.append("Lemma shape%d_Put_puts : %s.\nProof.\n  intros. rewrite shape%d_Put_spec. cbn [puts bind]. shape_crush.\nQed.\n" % (n, shape_puts_stmt(n), n))
+        o.append("Lemma shape%d_nfold : %s.\n%s" % (n, shape_nfold_stmt(n), shape_nfold_proof(n)))
     write("coq/theories/Optics/GenShapeFacts.v", "\n".join(o))
 
     # ---------------- theorem blocks for Properties/*.v
@@ -172,6 +221,7 @@ Ltac shape_crush :=
         b.append("Theorem C04_shape%d_Put : %s.\nProof. exact shape%d_Put_spec. Qed.\nPrint Assumptions C04_shape%d_Put.\n" % (n, shape_put_stmt(n), n, n))
         b.append("Theorem C04_shape%d_Get : %s.\nProof. exact shape%d_Get_spec. Qed.\nPrint Assumptions C04_shape%d_Get.\n" % (n, shape_get_stmt(n), n, n))
         b.append("Theorem C04_ForShape%d : %s.\nProof. exact ForShape%d_spec. Qed.\nPrint Assumptions C04_ForShape%d.\n" % (n, forshape_stmt(n), n, n))
+        b.append("Theorem C04_shape%d_nfold : %s.\nProof. exact shape%d_nfold. Qed.\nPrint Assumptions C04_shape%d_nfold.\n" % (n, shape_nfold_stmt(n), n, n))
     blocks["C04"] = "\n".join(b)
     for k, v in blocks.items():
         write("tools/scripts/arity_block_%s.txt" % k, v)
